@@ -1,8 +1,8 @@
 #!/bin/sh
-# usage: confirm_seed.sh <ID>  -- confirms a seeded change in its scratch worktree /tmp/wt/<ID> with outputs in /tmp/seeded/<ID>:
+# usage: confirm_seed.sh <ID> [worktree] [output dir]  -- confirms a seeded change in its scratch worktree /tmp/wt/<ID> with outputs in /tmp/seeded/<ID>:
 # the library's suite passes with the change, the demonstration fails with it and passes without it.
 export GOFLAGS=-mod=mod GOPROXY=off GOSUMDB=off GOTOOLCHAIN=local
-id=$1; wt=/tmp/wt/$id; out=/tmp/seeded/$id
+id=$1; wt=${2:-/tmp/wt/$id}; out=${3:-/tmp/seeded/$id}
 cd $wt || exit 2
 git status --short | grep -v "^??" | head -5
 echo "--- patch applies to /repo HEAD?"; git -C /repo apply --check $out/patch.diff && echo yes
